@@ -165,32 +165,32 @@ class SpecParser:
             return len(toks)
 
 
+def run_langid(sp, toks, i, outer):
+    """a printed language identifier starting at token i through table A.1; -> index where it yields"""
+    if i < len(toks) and toks[i] == ('lit', b'und'):
+        r = sp.row_for('core', 'L0', Shape.product(3, [sh.mask_of([b]) for b in b'und']), "literal 'und'")
+        if r is None or r.outcome != 'skip':
+            sp.problems.append("core: the printed 'und' is not read back as the empty language")
+        return sp.run_part('core', 'LanguageIdentifier', toks, i + 1, (r.kw.get('next', 'A') if r else 'A'), outer=outer)
+    return sp.run_part('core', 'LanguageIdentifier', toks, i, 'L0', outer=outer)
+
+
 def spec_roundtrip(rep):
     specs, roles = parserules.specs()
     canon = {}
     for name in ('Language', 'Script', 'Region', 'Variant', 'ukey', 'utype', 'uattr', 'tkey', 'tvalue', 'privatetag'):
         canon[name] = canonical_shape(roles[name])
     nsent = 0
-    # ---- (1) LanguageIdentifier: language [script] [region] variant*
+    # ---- (1) LanguageIdentifier: (und | language) [script] [region] variant*
     sp = SpecParser(specs, roles, canon)
     lang_sentences = sentences(emitrules.SPEC['LanguageIdentifier'])
     for sent in lang_sentences:
-        # Language itself prints 'und' or text
-        for first in (('sym', 'Language'), ('lit', b'und')):
-            toks = tokens_of(sent)
-            nsent += 1
-            if toks is None:
-                sp.problems.append('printed sentence cannot be tokenised')
-                continue
-            q = 'L0'
-            if first[0] == 'lit':
-                r = sp.row_for('core', q, Shape.product(3, [sh.mask_of([b]) for b in b'und']), "literal 'und'")
-                if r is None or r.outcome != 'skip':
-                    sp.problems.append("core: the printed 'und' is not read back as the empty language")
-                nxt = r.kw.get('next', 'A') if r else 'A'
-                sp.run_part('core', 'LanguageIdentifier', toks, 1, nxt)
-            else:
-                sp.run_part('core', 'LanguageIdentifier', toks, 0, q)
+        toks = tokens_of(sent)
+        nsent += 1
+        if toks is None:
+            sp.problems.append('printed sentence cannot be tokenised')
+            continue
+        run_langid(sp, toks, 0, None)
     rep.ob('roundtrip:langid', 'SPEC-ROUNDTRIP', '-', '-', 'every sentence of the LanguageIdentifier printer grammar is re-read by the parser table into the slots it was printed from',
            not sp.problems, detail='\n'.join(sorted(set(sp.problems))[:5]), how='%d sentences (stars unrolled 0..2) through table A.1' % nsent)
     total = nsent
@@ -225,12 +225,13 @@ def spec_roundtrip(rep):
                     q = specs[which]['init']
                     i = 0
                     # transform: a leading language identifier is parsed by the core table, then TL
-                    if which == 'transform' and seq and seq[0] == ('sym', 'Language'):
-                        r0 = sp.row_for('transform', 'T0', canon['Language'], 'tlang language')
+                    if which == 'transform' and seq and seq[0] in (('sym', 'Language'), ('lit', b'und')):
+                        first = canon['Language'] if seq[0][0] == 'sym' else Shape.product(3, [sh.mask_of([b]) for b in b'und'])
+                        r0 = sp.row_for('transform', 'T0', first, 'tlang language')
                         if r0 is None or r0.outcome != 'subparse':
                             sp.problems.append('transform: a printed tlang does not start the nested identifier parser')
                             continue
-                        i = sp.run_part('core', 'LanguageIdentifier', seq, 0, 'L0', outer=owner)
+                        i = run_langid(sp, seq, 0, owner)
                         q = 'TL'
                     j = sp.run_part(which, owner, seq, i, q)
                     if f is not None and j != len(seq) - 1 and not sp.problems:
